@@ -135,7 +135,9 @@ const CONSUMERS: &[&str] = &[
     "[limit($n; 1,2,3,4)]", "[skip($n; 1,2,3,4)]", "[range($n)] | length", "[range(0; $n)] | length", "[range($n; 3)]",
     "[limit(4; range(0; 10; $n))]", "[limit(4; range($n; $n + 4))]", "\"ab\" * $n", "$n * \"ab\"", "[$n] | implode", "[$n, 65] | tobytes",
     "$n | tobytes", "[1,2,3,4,5] | nth($n)", "nth($n; 1,2,3,4)", "[1,2,3,4,5] | has($n)", "{($n|tostring): 1} | keys",
-    "{($n): 1} | has($n)", "{($n): 1} | .[$n]", "{(3): 1} | has($n)", "$n < 3", "$n == 3", "$n == 3.0", "[$n, 3, 3.5, -1] | sort",
+    "{($n): 1} | has($n)", "{($n): 1} | .[$n]", "{(3): 1} | has($n)", "$n < 9223372036854775808", "$n > -9223372036854775809", "[9223372036854775808, $n, -9223372036854775809] | sort",
+    "[$n, 9223372036854775808] | min", "[limit(3; range($n - 1; $n + 2))]", "[9223372036854775808, $n] | unique | length", "[$n] - [9223372036854775808]",
+    "$n < 3", "$n == 3", "$n == 3.0", "[$n, 3, 3.5, -1] | sort",
     "[1,2,3,4,5] | .[$n] = 9", "[1,2,3,4,5] | del(.[$n])", "[1,2,3,4,5] | .[$n:] = [0]", "[1,2,3,4,5] | getpath([$n])",
     "[1,2,3,4,5] | setpath([$n]; 0)", "[1,2,3,4,5] | delpaths([[$n]])", "$n + 1", "$n - 1", "$n * 3", "$n % 3", "7 % $n", "-$n", "$n / 2",
     "$n | tostring", "$n | tojson", "$n | length", "$n | abs", "$n | floor", "$n | round", "$n | sqrt", "$n | tojson | fromjson",
